@@ -24,6 +24,9 @@ func Range[T Number](args ...T) ([]T, error) {
 	if len(args) > 3 {
 		return nil, errors.New("the method require maximum 3 paramenters")
 	}
+	if len(args) == 0 {
+		return nil, errors.New("the method require at least 1 parameter")
+	}
 
 	var start, step, end T
 
